@@ -1,9 +1,291 @@
-import Model.Conv128
-/-! # C02 (placeholder while the harness is brought up) -/
-namespace C02
-open Conv
+import Lemmas.Conv128AsFloat
+import Lemmas.Conv128Parse
+/-! # C02 — 128-bit integers convert and print losslessly and saturate when out of range
 
-theorem from64_toNat (v : BitVec 64) : (U128.from64 v).toNat = v.toNat := by
-  simp [U128.from64, U128.toNat]
+Property theorems only.  The executable model is `Model/Conv128.lean` (namespace `Conv`) over the binary64 model
+`GoSem/F64.lean`; it is the code the driver `drv_c02` runs against the Go functions on every check.  Helper lemmas:
+`Lemmas/Conv128*.lean`, `Lemmas/F64*.lean`.  `U128.toNat` / `I128.toInt` are the mathematical values of the two words.
+`big.Int` is `Int`; a `float64` is a `GoSem.F64` (`WF` = decoded from a 64-bit pattern, `decode_wf`). -/
+namespace C02
+open Conv GoSem GoSem.F64
+
+/-! ## text: `String` = `MarshalText` = `MarshalJSON` = `MarshalYAML` denotes the exact value and parses back -/
+
+/-- the decimal text of a `Uint128` is the digit string of its exact value … -/
+theorem toString_denotes_u (u : U128) : u.toString = natDigits u.toNat ∧ decVal u.toString = u.toNat := by
+  rw [U128.toString_eq]; exact ⟨rfl, decVal_natDigits _⟩
+
+/-- … and of an `Int128` the digit string of its exact value with a leading `-` for negative values -/
+theorem toString_denotes_i (i : I128) : i.toString = intDigits i.toInt := I128.toString_eq i
+
+/-- `string_parse_roundtrip` (Uint128): parsing the rendered text yields the identical value -/
+theorem string_parse_roundtrip_u (u : U128) : U128.fromString u.toString = some u := by
+  have h := parseToBigInt_intDigits (u.toNat : Int)
+  have e : intDigits (u.toNat : Int) = natDigits u.toNat := by
+    unfold intDigits; rw [if_neg (by omega)]; simp
+  rw [e] at h
+  unfold U128.fromString
+  rw [U128.toString_eq, h]
+  show some (U128.fromBigInt u.asBigInt) = some u
+  rw [U128.fromBigInt_asBigInt]
+
+/-- `string_parse_roundtrip` (Int128) -/
+theorem string_parse_roundtrip_i (i : I128) : I128.fromString i.toString = some i := by
+  unfold I128.fromString
+  rw [I128.toString_eq, parseToBigInt_intDigits]
+  show some (I128.fromBigInt i.toInt) = some i
+  rw [← I128.asBigInt_eq, I128.fromBigInt_asBigInt]
+
+/-- `UnmarshalText` / `UnmarshalJSON` / `UnmarshalYAML` of the rendered text overwrite any receiver with the value -/
+theorem unmarshal_roundtrip (u r : U128) (i q : I128) :
+    U128.unmarshal r u.toString = (u, true) ∧ I128.unmarshal q i.toString = (i, true) := by
+  unfold U128.unmarshal I128.unmarshal
+  rw [string_parse_roundtrip_u, string_parse_roundtrip_i]; exact ⟨rfl, rfl⟩
+
+/-- a failed load leaves the receiver untouched, and `FromStringNoCheck` then gives 0 -/
+theorem unmarshal_error_keeps_receiver (r : U128) (q : I128) (s : List Char) (h : parseToBigInt s = none) :
+    U128.unmarshal r s = (r, false) ∧ I128.unmarshal q s = (q, false) ∧
+      U128.fromStringNoCheck s = U128.zero ∧ I128.fromStringNoCheck s = I128.zero := by
+  unfold U128.unmarshal I128.unmarshal U128.fromStringNoCheck I128.fromStringNoCheck U128.fromString I128.fromString
+  rw [h]; exact ⟨rfl, rfl, rfl, rfl⟩
+
+/-- constructor from string: whenever the text denotes the integer `z` (is accepted), the result is `z` when it lies in
+    the type's range and the nearest bound when it does not -/
+theorem fromString_exact_or_saturates (s : List Char) (z : Int) (h : parseToBigInt s = some z) :
+    (∃ u, U128.fromString s = some u ∧ (u.toNat : Int) = if z < 0 then 0 else if z < 2^128 then z else 2^128 - 1) ∧
+    (∃ i, I128.fromString s = some i ∧
+      i.toInt = if z < -(2^127) then -(2^127) else if z < 2^127 then z else 2^127 - 1) := by
+  unfold U128.fromString I128.fromString
+  rw [h]
+  exact ⟨⟨_, rfl, U128.fromBigInt_spec z⟩, ⟨_, rfl, I128.fromBigInt_spec z⟩⟩
+
+/-- the full statement of `fromString_rejects`: a text is accepted with value `z` exactly when it is an integer
+    literal denoting `z` (grammar `IsIntLiteral`, to be given declaratively: sign, base prefix, digits with single
+    inner underscores; or mantissa with radix point and `e`/`p` exponent whose exact value is an integer).
+    Not proved in this form; the scanner itself is compared with `math/big` on every check run. -/
+def fromString_rejects_Statement (IsIntLiteral : List Char → Int → Prop) : Prop :=
+  ∀ s z, parseToBigInt s = some z ↔ IsIntLiteral s z
+
+/-- `fromString_rejects`, proved part: the empty text is rejected; a text with an exponent character and a `/` is
+    rejected (the fraction syntax of `big.Rat` is excluded); and a text without `e`/`E` is rejected unless it is an
+    optional sign followed by a non-empty run of ASCII letters, digits and underscores — so blanks, quotes (a JSON
+    string), radix points, a second sign, control characters and non-ASCII bytes are never accepted there. -/
+theorem fromString_rejects_partial (s : List Char) :
+    parseToBigInt [] = none ∧
+    (hasExpChar s = true → hasSlash s = true → parseToBigInt s = none) ∧
+    (hasExpChar s = false → ∀ z, parseToBigInt s = some z →
+      ∃ sg body, s = sg ++ body ∧ (sg = [] ∨ sg = ['-'] ∨ sg = ['+']) ∧ body ≠ [] ∧ ∀ c ∈ body, WordChar c) := by
+  refine ⟨rfl, ?_, ?_⟩
+  · intro h1 h2; unfold parseToBigInt; rw [h1, h2]; rfl
+  · intro h1 z h
+    unfold parseToBigInt at h
+    rw [h1] at h
+    exact bigIntSetString_sound s z h
+
+/-! ## big.Int -/
+
+/-- `AsBigInt` is the exact value -/
+theorem asBigInt_exact (u : U128) (i : I128) : u.asBigInt = (u.toNat : Int) ∧ i.asBigInt = i.toInt :=
+  ⟨U128.asBigInt_eq u, I128.asBigInt_eq i⟩
+
+/-- `fromBigInt_exact_or_saturates` (Uint128): exact in `[0, 2^128)`, 0 below, `MaxUint128` above -/
+theorem fromBigInt_exact_or_saturates_u (z : Int) :
+    ((U128.fromBigInt z).toNat : Int) = if z < 0 then 0 else if z < 2^128 then z else 2^128 - 1 :=
+  U128.fromBigInt_spec z
+
+/-- `fromBigInt_exact_or_saturates` (Int128): exact in `[-2^127, 2^127)`, `MinInt128` below, `MaxInt128` above -/
+theorem fromBigInt_exact_or_saturates_i (z : Int) :
+    (I128.fromBigInt z).toInt = if z < -(2^127) then -(2^127) else if z < 2^127 then z else 2^127 - 1 :=
+  I128.fromBigInt_spec z
+
+/-- `asBigInt_fromBigInt`: loading the big.Int rendering back yields the identical value -/
+theorem asBigInt_fromBigInt (u : U128) (i : I128) :
+    U128.fromBigInt u.asBigInt = u ∧ I128.fromBigInt i.asBigInt = i :=
+  ⟨U128.fromBigInt_asBigInt u, I128.fromBigInt_asBigInt i⟩
+
+/-- … and an in-range big.Int survives the round trip through either type -/
+theorem fromBigInt_asBigInt (z : Int) :
+    (0 ≤ z → z < 2^128 → (U128.fromBigInt z).asBigInt = z) ∧
+    (-(2^127) ≤ z → z < 2^127 → (I128.fromBigInt z).asBigInt = z) := by
+  constructor
+  · intro h1 h2
+    rw [U128.asBigInt_eq, U128.fromBigInt_spec, if_neg (by omega), if_pos h2]
+  · intro h1 h2
+    rw [I128.asBigInt_eq, I128.fromBigInt_spec, if_neg (by omega), if_pos h2]
+
+/-! ## 64-bit constructors -/
+
+/-- `Uint128From64`, `Int128From64`, `Int128FromUint64` are exact -/
+theorem from64_exact (v : BitVec 64) :
+    (U128.from64 v).toNat = v.toNat ∧ (I128.from64 v).toInt = v.toInt ∧ (I128.fromUint64 v).toInt = (v.toNat : Int) := by
+  have hv := v.isLt
+  have z0 : (0#64).toNat = 0 := rfl
+  have zm : maxU64.toNat = 2^64 - 1 := by decide
+  refine ⟨by simp [U128.from64, U128.toNat], ?_, ?_⟩
+  · have ht := BitVec.toInt_eq_toNat_cond v
+    unfold I128.from64
+    by_cases h : 2 * v.toNat < 2^64
+    · rw [if_pos h] at ht
+      have hc : ¬ v.toInt < 0 := by omega
+      rw [if_neg hc]
+      unfold I128.toInt
+      simp only []
+      rw [z0, if_pos (by omega), ht]; omega
+    · rw [if_neg h] at ht
+      have hc : v.toInt < 0 := by omega
+      rw [if_pos hc]
+      unfold I128.toInt
+      simp only []
+      rw [zm, if_neg (by omega), ht]; omega
+  · unfold I128.fromUint64 I128.toInt
+    simp only []
+    rw [z0, if_pos (by omega)]; omega
+
+/-! ## narrowing: `IsX` is true exactly when `AsX` preserves the value -/
+
+theorem isInt128_iff_asInt128_preserves (u : U128) : u.isInt128 = true ↔ u.asInt128.toInt = (u.toNat : Int) :=
+  U128.isInt128_iff u
+theorem isUint64_iff_asUint64_preserves_u (u : U128) : u.isUint64 = true ↔ u.asUint64.toNat = u.toNat :=
+  U128.isUint64_iff u
+theorem isUint128_iff_asUint128_preserves (i : I128) : i.isUint128 = true ↔ (i.asUint128.toNat : Int) = i.toInt :=
+  I128.isUint128_iff i
+theorem isInt64_iff_asInt64_preserves (i : I128) : i.isInt64 = true ↔ i.asInt64.toInt = i.toInt :=
+  I128.isInt64_iff i
+theorem isUint64_iff_asUint64_preserves_i (i : I128) : i.isUint64 = true ↔ (i.asUint64.toNat : Int) = i.toInt :=
+  I128.isUint64_iff i
+
+/-- `Int64()` of the `json.Number` interface succeeds exactly when the value fits and then returns it -/
+theorem int64_spec (i : I128) :
+    (i.int64 = none ↔ ¬ (-(2^63) ≤ i.toInt ∧ i.toInt < 2^63)) ∧ ∀ v, i.int64 = some v → v.toInt = i.toInt := by
+  have h := I128.isInt64_iff i
+  have hr := i.asInt64.toInt_lt; have hl := i.asInt64.le_toInt
+  unfold I128.int64
+  by_cases c : i.isInt64 = true
+  · have hv := h.mp c
+    rw [c]
+    simp only [Bool.not_true, Bool.false_eq_true, if_false]
+    constructor
+    · constructor
+      · intro x; cases x
+      · intro x; exact (x ⟨by omega, by omega⟩).elim
+    · intro v hv'; injection hv' with hv'; rw [← hv']; exact hv
+  · have c' : i.isInt64 = false := by cases hb : i.isInt64 <;> simp_all
+    rw [c']
+    simp only [Bool.not_false, if_true]
+    constructor
+    · constructor
+      · intro _ hfit
+        obtain ⟨h1, h2⟩ := hfit
+        apply c
+        -- the value fits: the low word read as an int64 is the value
+        apply h.mpr
+        rw [I128.asInt64_eq_lo i, BitVec.toInt_eq_toNat_cond]
+        have hh := i.hi.isLt; have hll := i.lo.isLt
+        unfold I128.toInt at h1 h2 ⊢
+        split at h1 <;> split <;> omega
+      · intro _; trivial
+    · intro v hv; cases hv
+
+/-! ## float64 → integer -/
+
+/-- `fromFloat64_spec` (Uint128): for every float64 (every decoded bit pattern) the constructor returns — without ever
+    evaluating an out-of-range (implementation-defined) float → integer conversion — 0 for NaN and for values ≤ 0,
+    `MaxUint128` for +Inf, and otherwise the value truncated toward zero, saturated to the type's range -/
+theorem fromFloat64_spec_u (f : F64) (hf : f.WF) :
+    U128.fromFloat64 f = .ok (match f with
+      | .nan => U128.zero
+      | .inf neg => if neg then U128.zero else U128.max
+      | .fin .. => U128.fromBigInt f.truncInt) := by
+  cases f with
+  | nan => rfl
+  | inf neg => cases neg <;> rfl
+  | fin s m e => exact U128.fromFloat64_fin s m e hf
+
+/-- `fromFloat64_spec` (Int128): 0 for NaN, the bounds for ±Inf, otherwise the truncated value saturated to
+    `[MinInt128, MaxInt128]`; no implementation-defined conversion is evaluated -/
+theorem fromFloat64_spec_i (f : F64) (hf : f.WF) :
+    I128.fromFloat64 f = .ok (match f with
+      | .nan => I128.zero
+      | .inf neg => if neg then I128.min else I128.max
+      | .fin .. => I128.fromBigInt f.truncInt) := by
+  cases f with
+  | nan => rfl
+  | inf neg => cases neg <;> rfl
+  | fin s m e => exact I128.fromFloat64_fin s m e hf
+
+/-- the same for the values the driver actually feeds: every 64-bit pattern -/
+theorem fromFloat64_never_implDefined (bits : Nat) :
+    U128.fromFloat64 (decode bits) ≠ .implDefined ∧ I128.fromFloat64 (decode bits) ≠ .implDefined := by
+  have h := decode_wf bits
+  constructor
+  · intro c; rw [fromFloat64_spec_u _ h] at c; cases c
+  · intro c; rw [fromFloat64_spec_i _ h] at c; cases c
+
+/-- value form of `fromFloat64_spec` for finite input: exact truncation in range, nearest bound out of range -/
+theorem fromFloat64_value (s : Bool) (m : Nat) (e : Int) (hf : WF (.fin s m e)) :
+    (∃ u, U128.fromFloat64 (.fin s m e) = .ok u ∧
+      (u.toNat : Int) = let z := truncInt (.fin s m e); if z < 0 then 0 else if z < 2^128 then z else 2^128 - 1) ∧
+    (∃ i, I128.fromFloat64 (.fin s m e) = .ok i ∧
+      i.toInt = let z := truncInt (.fin s m e); if z < -(2^127) then -(2^127) else if z < 2^127 then z else 2^127 - 1) :=
+  ⟨⟨_, U128.fromFloat64_fin s m e hf, U128.fromBigInt_spec _⟩, ⟨_, I128.fromFloat64_fin s m e hf, I128.fromBigInt_spec _⟩⟩
+
+/-! ## integer → float64 -/
+
+/-- `asFloat64_exact_below_2_53` with the sign clause on that range (Uint128): the result is finite, not negative,
+    zero only for 0, and its exact value is the integer -/
+theorem asFloat64_exact_below_2_53_u (u : U128) (h : u.toNat < 2^53) :
+    ValEq u.asFloat64 (u.toNat : Int) ∧ ∃ m e, u.asFloat64 = .fin false m e ∧ (m = 0 ↔ u.toNat = 0) :=
+  U128.asFloat64_exact u h
+
+/-- `asFloat64_exact_below_2_53` with the sign clause on that range (Int128): sign bit set exactly for negative values -/
+theorem asFloat64_exact_below_2_53_i (i : I128) (h1 : -(2^53) < i.toInt) (h2 : i.toInt < 2^53) :
+    ValEq i.asFloat64 i.toInt ∧ ∃ m e, i.asFloat64 = .fin (decide (i.toInt < 0)) m e ∧ (m = 0 ↔ i.toInt = 0) :=
+  I128.asFloat64_exact i h1 h2
+
+/-- `Int128.AsFloat64` is the negation of the magnitude's conversion, so the sign and error clauses for `Int128`
+    reduce to those of `Uint128.AsFloat64` applied to `|x|` (`AbsUint128`, proved to be the absolute value) -/
+theorem asFloat64_i_reduces (i : I128) :
+    (i.toInt < 0 → i.asFloat64 = F64.neg i.absUint128.asFloat64 ∧ (i.absUint128.toNat : Int) = -i.toInt) ∧
+    (0 ≤ i.toInt → i.asFloat64 = i.asUint128.asFloat64 ∧ (i.asUint128.toNat : Int) = i.toInt) := by
+  have hh := i.hi.isLt; have hl := i.lo.isLt
+  have ha := I128.absUint128_toNat i
+  unfold I128.asFloat64
+  rw [and_signBit_ne]
+  constructor
+  · intro hneg
+    have hs : 2^63 ≤ i.hi.toNat := by
+      unfold I128.toInt at hneg; split at hneg <;> omega
+    rw [decide_eq_true hs, if_pos rfl, if_pos hneg] at *
+    exact ⟨rfl, ha⟩
+  · intro hpos
+    have hs : ¬ 2^63 ≤ i.hi.toNat := by
+      unfold I128.toInt at hpos; split at hpos <;> omega
+    rw [decide_eq_false hs, if_neg (by simp)]
+    refine ⟨rfl, ?_⟩
+    unfold I128.asUint128 U128.toNat I128.toInt; rw [if_pos (by omega)]
+
+/-- full statements of the sign and one-ulp clauses for all 2^128 values (the inexact path of `roundRatN`:
+    two roundings of the halves, one of the product-sum).  Not proved; `AsFloat64` is compared bit for bit with the
+    hardware on every check run, including halfway cases at every bit length. -/
+def asFloat64_sign_Statement : Prop :=
+  ∀ u : U128, ∃ m e, u.asFloat64 = .fin false m e ∧ (m = 0 ↔ u.toNat = 0)
+
+def asFloat64_within_ulp_Statement : Prop :=
+  ∀ u : U128, ∃ m e, u.asFloat64 = .fin false m e ∧ -1074 ≤ e ∧
+    -- |m·2^e − x| ≤ 2^e (one unit in the last place), written without fractions for e ≥ 0 (x ≥ 2^53)
+    (0 ≤ e → (m : Int) * 2^e.toNat - 2^e.toNat ≤ u.toNat ∧ (u.toNat : Int) ≤ m * 2^e.toNat + 2^e.toNat)
+
+/-- `asFloat64_sign` / `asFloat64_within_ulp`, proved part: both hold below 2^53, where the conversion is exact -/
+theorem asFloat64_sign_partial (u : U128) (h : u.toNat < 2^53) :
+    ∃ m e, u.asFloat64 = .fin false m e ∧ (m = 0 ↔ u.toNat = 0) :=
+  (U128.asFloat64_exact u h).2
+
+/-! ## non-vacuity -/
+
+/-- 2^64 (bits 0x43f0…) is a well-formed float that takes the large branch: hi = 1, lo = 0 -/
+example : U128.fromFloat64 (decode 0x43f0000000000000) = .ok ⟨1#64, 0#64⟩ := by
+  rw [fromFloat64_spec_u _ (decode_wf _)]; decide
+
+example : parseToBigInt ['1', 'e', '2'] = some 100 := by decide
 
 end C02
